@@ -11,5 +11,6 @@ def broadcastMac : Nat := 281474976710655
 def mtuBits : Nat := 16
 def macBits : Nat := 64
 def mtuDefault : Nat := 2 ^ mtuBits - 1
-def throughputMsFactor : Nat := 1000
+def txNsPerSec : Nat := 1000000000
+def txNsPerMs : Nat := 1000000
 end Elvis.Gen
